@@ -55,6 +55,7 @@ type mpart struct {
 	idem     map[int64]*idemState
 	aborted  []abortedTxn
 	openTxn  map[int64]int64 // pid -> first offset of the open transaction
+	leaderHist []int32       // every broker that has led this partition
 }
 
 type abortedTxn struct {
@@ -205,6 +206,7 @@ func (cl *cluster) timedFault(rs *ruleState) {
 	case "leader-move":
 		if p := cl.part(f.Topic, f.Partition); p != nil {
 			cl.k.logf("fault leader-move %s %d->%d", p.key(), p.leader, f.To)
+			p.leaderHist = append(p.leaderHist, p.leader)
 			p.leader = f.To
 			cl.bumpView()
 			cl.noteFault("leader-move")
